@@ -146,8 +146,8 @@ fn short(msg: &str) -> String {
     s.split('_').filter(|w| !w.is_empty()).collect::<Vec<_>>().join("_")
 }
 
-fn native<S: Stark<F, D> + Copy>(stark: S, p: &SProof, cfg: &StarkConfig, vp: &Option<FriParams>) -> String {
-    match catch_unwind(AssertUnwindSafe(|| verify_stark_proof(stark, p.clone(), cfg, vp.clone()))) {
+fn native<S: Stark<F, D> + Clone>(stark: S, p: &SProof, cfg: &StarkConfig, vp: &Option<FriParams>) -> String {
+    match catch_unwind(AssertUnwindSafe(|| verify_stark_proof(stark.clone(), p.clone(), cfg, vp.clone()))) {
         Ok(Ok(())) => "ok".into(),
         Ok(Err(e)) => {
             let m = e.to_string();
@@ -162,12 +162,12 @@ fn native<S: Stark<F, D> + Copy>(stark: S, p: &SProof, cfg: &StarkConfig, vp: &O
 
 struct SOuter { data: Data, pt: StarkProofWithPublicInputsTarget<D>, zero: Target }
 
-fn build_outer<S: Stark<F, D> + Copy>(stark: S, cfg: &StarkConfig, degree_bits: usize, min_bits: Option<usize>) -> Result<SOuter, String> {
+fn build_outer<S: Stark<F, D> + Clone>(stark: S, cfg: &StarkConfig, degree_bits: usize, min_bits: Option<usize>) -> Result<SOuter, String> {
     catch_unwind(AssertUnwindSafe(|| {
         let mut b = CircuitBuilder::<F, D>::new(CircuitConfig::standard_recursion_config());
         let zero = b.zero();
         let pt = add_virtual_stark_proof_with_pis(&mut b, &stark, cfg, degree_bits, 0, 0);
-        verify_stark_proof_circuit::<F, C, S, D>(&mut b, stark, pt.clone(), cfg, min_bits);
+        verify_stark_proof_circuit::<F, C, S, D>(&mut b, stark.clone(), pt.clone(), cfg, min_bits);
         b.register_public_inputs(&pt.public_inputs);
         b.register_public_input(pt.proof.degree_bits);
         SOuter { data: b.build::<C>(), pt, zero }
@@ -240,11 +240,11 @@ fn tampers(r: &mut Rng, p: &SProof, d: usize, all: bool, shorten: bool) -> Vec<S
 }
 
 /// run every case of `cases` against `outer`; returns number of lines
-fn run_cases<S: Stark<F, D> + Copy>(w: &mut dyn Write, tag: &str, stark: S, cfg: &StarkConfig, vp: &Option<FriParams>, outer: &SOuter,
+fn run_cases<S: Stark<F, D> + Clone>(w: &mut dyn Write, tag: &str, stark: S, cfg: &StarkConfig, vp: &Option<FriParams>, outer: &SOuter,
                                     d: usize, cases: Vec<SCase>) -> usize {
     let mut n = 0;
     for c in cases {
-        let mut nat = native(stark, &c.p, cfg, vp);
+        let mut nat = native(stark.clone(), &c.p, cfg, vp);
         // the degree is part of the statement the circuit checks: the assignment must be given the proof's own degree
         let real = catch_unwind(AssertUnwindSafe(|| c.p.proof.recover_degree_bits(cfg))).unwrap_or(usize::MAX);
         if nat == "ok" && c.degree_arg != real { nat = "err:degree-arg".into(); }
@@ -260,8 +260,8 @@ fn run_cases<S: Stark<F, D> + Copy>(w: &mut dyn Write, tag: &str, stark: S, cfg:
     n
 }
 
-fn prove_one<S: Stark<F, D> + Copy>(stark: S, cfg: &StarkConfig, trace: Vec<PolynomialValues<F>>, pis: &[F], vp: &Option<FriParams>) -> Result<SProof, String> {
-    match catch_unwind(AssertUnwindSafe(|| prove::<F, C, S, D>(stark, cfg, trace, pis, vp.clone(), &mut TimingTree::default()))) {
+fn prove_one<S: Stark<F, D> + Clone>(stark: S, cfg: &StarkConfig, trace: Vec<PolynomialValues<F>>, pis: &[F], vp: &Option<FriParams>) -> Result<SProof, String> {
+    match catch_unwind(AssertUnwindSafe(|| prove::<F, C, S, D>(stark.clone(), cfg, trace, pis, vp.clone(), &mut TimingTree::default()))) {
         Ok(Ok(p)) => Ok(p), Ok(Err(e)) => Err(short(&e.to_string())), Err(_) => Err(site()),
     }
 }
@@ -338,6 +338,42 @@ fn multi<S: Stark<F, D> + Copy>(w: &mut dyn Write, r: &mut Rng, name: &str, kind
     n
 }
 
+/// One STARK of the const-generic family of harness/src/c09.rs (here: lookup STARKs of c10 with several
+/// looking columns, next-row columns and DIFFERENT filters per column) verified natively and in-circuit.
+struct FamPlain<'a> { w: &'a mut dyn Write, r: &'a mut Rng, tag: String, cfg: &'a StarkConfig, d: usize, rows: Vec<Vec<F>>, pis: Vec<F>, all: bool }
+
+impl<'a> crate::c09::FamVisitor for FamPlain<'a> {
+    type Out = usize;
+    fn visit<const N: usize, const PI: usize>(self, stark: crate::c09::Fam<N, PI>) -> usize {
+        let FamPlain { w, r, tag, cfg, d, rows, pis, all } = self;
+        let trace = crate::c09::to_poly_values(&rows, N);
+        let p = match prove_one(stark.clone(), cfg, trace, &pis, &None) {
+            Ok(p) => p, Err(e) => { writeln!(w, "c11 {tag} inner-prove = 0 # {e}").unwrap(); return 1; }
+        };
+        let outer = match build_outer(stark.clone(), cfg, d, None) {
+            Ok(o) => o, Err(e) => { writeln!(w, "c11 {tag} outer-build = 0 # {e}").unwrap(); return 1; }
+        };
+        let mut cases = vec![SCase { name: "valid".into(), exp: '1', p: p.clone(), degree_arg: d }];
+        cases.extend(tampers(r, &p, d, all, false));
+        run_cases(w, &tag, stark, cfg, &None, &outer, d, cases)
+    }
+}
+
+fn family_lookup_cases(w: &mut dyn Write, r: &mut Rng, cfg: &StarkConfig, thorough: bool) -> usize {
+    let mut n = 0;
+    let d = 5usize;
+    // (looking columns, constraint degree, fancy = linear-combination / next-row columns with different filters)
+    let shapes: &[(usize, usize, bool)] = if thorough { &[(2, 3, true), (4, 3, true), (3, 3, true), (4, 2, true), (2, 3, false), (4, 5, true)] }
+                                          else { &[(2, 3, true), (4, 3, true)] };
+    for &(k, degree, fancy) in shapes {
+        let b = crate::c10::build_perm(r, 1 << d, k, degree, fancy);
+        let tag = format!("famlookup-k{k}-deg{degree}-{}", if fancy { "filters" } else { "plain" });
+        let v = FamPlain { w: &mut *w, r: &mut *r, tag, cfg, d, rows: b.rows.clone(), pis: b.pis.clone(), all: thorough };
+        n += crate::c09::visit_fam(b.spec.clone(), v);
+    }
+    n
+}
+
 pub fn run(seed: u64, tier: &str, w: &mut dyn Write) -> usize {
     let mut r = Rng::new(seed ^ 0xC11);
     let thorough = tier == "thorough";
@@ -350,6 +386,7 @@ pub fn run(seed: u64, tier: &str, w: &mut dyn Write) -> usize {
     let cfg_b = stark_config(2, 1, 2, 2, 2, 3);   // arity 4 reductions, small cap
     n += plain(w, &mut r, "fib-a", Kind::Fib, fib, &cfg_a, 5, true);
     n += plain(w, &mut r, "perm-b", Kind::Perm, perm, &cfg_b, 5, true);
+    n += family_lookup_cases(w, &mut r, &cfg_b, thorough);
     if thorough {
         n += plain(w, &mut r, "fib-b", Kind::Fib, fib, &cfg_b, 7, true);
         n += plain(w, &mut r, "fib-a", Kind::Fib, fib, &cfg_a, 9, true);
